@@ -84,6 +84,16 @@ type coalescer struct {
 	closeOnce sync.Once
 	wg        sync.WaitGroup
 
+	// Shutdown handshake. done rejects new submits and wakes blocked ones;
+	// stop tells the writer to drain and exit and is closed only after every
+	// submit that was admitted before done was closed has returned. Without
+	// it a submit that passed the done check could enqueue after the writer
+	// had already exited, leaving an accepted message in the queue forever.
+	mu         sync.Mutex
+	closed     bool
+	submitters sync.WaitGroup
+	stop       chan struct{}
+
 	maxBatch   int
 	errHandler CoalescingErrorHandler
 }
@@ -100,6 +110,7 @@ func newCoalescer(dest string, nc *inet.Client, cfg coalescingConfig) *coalescer
 		netClient:  nc,
 		in:         make(chan *internalpb.RemoteMessage, maxBatch*4),
 		done:       make(chan struct{}),
+		stop:       make(chan struct{}),
 		maxBatch:   maxBatch,
 		errHandler: cfg.errHandler,
 	}
@@ -126,6 +137,18 @@ func newCoalescer(dest string, nc *inet.Client, cfg coalescingConfig) *coalescer
 //   - errCoalescerClosed if the coalescer is shut down while the caller is
 //     waiting (or before the call began).
 func (c *coalescer) submit(ctx context.Context, msg *internalpb.RemoteMessage) error {
+	// Register as an in-flight submitter unless shutdown has begun. close
+	// waits for registered submitters before it lets the writer exit, so a
+	// message enqueued below is always seen by the writer's final drain.
+	c.mu.Lock()
+	if c.closed {
+		c.mu.Unlock()
+		return errCoalescerClosed
+	}
+	c.submitters.Add(1)
+	c.mu.Unlock()
+	defer c.submitters.Done()
+
 	// Pre-check shutdown so a submit after close returns immediately rather
 	// than racing with a context that has no deadline.
 	select {
@@ -157,7 +180,16 @@ func (c *coalescer) submit(ctx context.Context, msg *internalpb.RemoteMessage) e
 // close signals the writer goroutine to flush and exit, then blocks until
 // the goroutine returns. Safe to call multiple times.
 func (c *coalescer) close() {
-	c.closeOnce.Do(func() { close(c.done) })
+	c.closeOnce.Do(func() {
+		c.mu.Lock()
+		c.closed = true
+		c.mu.Unlock()
+		close(c.done)
+		// Every admitted submit returns promptly now (done is one of its
+		// select cases); once they are gone nothing can enqueue anymore.
+		c.submitters.Wait()
+		close(c.stop)
+	})
 	c.wg.Wait()
 }
 
@@ -219,13 +251,18 @@ func (c *coalescer) run() {
 
 	for {
 		select {
-		case <-c.done:
-			// Drain anything still buffered and exit. Submit refuses new
-			// enqueues once done is closed, so the channel is a bounded
-			// set at this point.
-			drainReady()
-			flush()
-			return
+		case <-c.stop:
+			// Drain everything still buffered and exit. stop is closed only
+			// after the last admitted submit returned, so the channel holds
+			// a bounded set at this point; it can exceed maxBatch (the
+			// buffer is 4x maxBatch), hence the loop.
+			for {
+				drainReady()
+				if len(batch) == 0 {
+					return
+				}
+				flush()
+			}
 		case m := <-c.in:
 			batch = append(batch, m)
 			drainReady()
